@@ -354,6 +354,21 @@ class C01(Prop):
                 dw = {"k": "tag", "name": "section", "attrs": [{"n": "id", "v": cps("w")}],
                       "c": [described, txt("kept <&>"), txt("own <text>")], "t": []}
                 recs.append({"tree": dw, "events": tokenize(w.get_html_string(g["indent"], g["eol"])), "gen": dict(g, second="lent")})
+            elif isinstance(obj, H.TagList) and len(obj) and any(isinstance(c_, H.Tag) and c_.name not in ("script", "style") for c_ in obj):
+                # a top-level list rendered (through str(), which works on a copy), one of the tags it HOLDS changed through
+                # the caller's own reference, the list rendered again
+                import copy as _copy
+                d4 = _copy.deepcopy(described)
+                j = [j_ for j_, c_ in enumerate(obj) if isinstance(c_, H.Tag) and c_.name not in ("script", "style")][0]
+                held = obj[j]
+                str(obj)
+                obj.render()
+                held.append("held <&> changed")
+                held.attrs["data-late"] = "1"
+                dj = [c_ for c_ in d4["c"]][sum(1 for c_ in list(obj)[:j] if not isinstance(c_, H.MetadataNode))]
+                dj["c"] = dj["c"] + [txt("held <&> changed")]
+                dj["attrs"] = dj["attrs"] + [{"n": "data-late", "v": cps("1")}]
+                recs.append({"tree": d4, "events": tokenize(obj.get_html_string(g["indent"], g["eol"])), "gen": dict(g, second="held")})
             elif vsel == 3 and isinstance(obj, H.Tag) and obj.name not in ("script", "style"):
                 import copy as _copy
                 d3 = _copy.deepcopy(described)
@@ -366,13 +381,32 @@ class C01(Prop):
         else:
             nm = g["name"]
             raw = nm in ("script", "style")
-            txt = "a=b;" if raw else rnd.choice(gamma.HOSTILE)
-            inner = H.Tag(nm, txt, {"title": rnd.choice(gamma.HOSTILE)}, _add_ws=g["ws"])
+            leaf = "a=b;" if raw else rnd.choice(gamma.HOSTILE)
+            title = rnd.choice(gamma.HOSTILE)
+            T = lambda s: {"k": "text", "name": "", "attrs": [], "c": [], "t": cps(s)}
+            E = lambda name, attrs, c: {"k": "tag", "name": name, "attrs": [{"n": a, "v": cps(v)} for a, v in attrs], "c": c, "t": []}
+            inner = H.Tag(nm, leaf, {"title": title}, _add_ws=g["ws"])
             empty = H.Tag(nm, _add_ws=g["ws"])
             if raw:
                 obj = H.tags.div(inner, empty, H.Tag(nm, id="x"), "tail <&>")
+                third = E(nm, [("id", "x")], [])
             else:
                 obj = H.tags.div(inner, empty, H.Tag(nm, H.tags.span("k"), "t&t", id="x"), "tail <&>")
+                third = E(nm, [("id", "x")], [E("span", [], [T("k")]), T("t&t")])
+            described = E("div", [], [E(nm, [("title", title)], [T(leaf)]), E(nm, [], []), third, T("tail <&>")])
             out = obj.get_html_string()
+            recs = [{"tree": described, "events": tokenize(out), "gen": g}]
+            # what was put into one element, read back from it and put into another element, is still what it was:
+            # the text of a <script>/<style> moved into an ordinary element is plain text there (and the other way round)
+            other = "pre" if raw else "code"
+            moved = H.Tag(other, inner.children, H.TagList(*inner.children)[0], id="m")
+            recs.append({"tree": E(other, [("id", "m")], [T(leaf), T(leaf)]), "events": tokenize(moved.get_html_string()),
+                         "gen": dict(g, second="moved")})
+            renamed = H.Tag(nm, leaf, "<&> more")
+            renamed.get_html_string()
+            renamed.name = "section"
+            recs.append({"tree": E("section", [], [T(leaf), T("<&> more")]), "events": tokenize(renamed.get_html_string()),
+                         "gen": dict(g, second="renamed")})
+            return recs
         tree = project(obj, H)
         return {"tree": tree, "events": tokenize(out), "gen": g}
